@@ -28,6 +28,9 @@ Decision tables (K2): `fwd <incl> <mask> <id> <old|-> <new|->` — one change th
 `<A|U|R>:<old>:<new>`; `merge <A|U|P|R>/<old|->/<new|-> <A|U|P|R>/<old|->/<new|->` — the merge stage holding the first
 change receives the second (same id): `cancel` or `<A|U|R>:<old>:<new>`.
 
+`pullid <id> <init> <progs> <subs> <sched>` — the same run, read as `Collection.PullID id` by subscriber 0:
+`store=…|vals=<values delivered, `;` separated>|ended=<0|1>` (`Sub.pullID`, `Sub.pullIDEnded`).
+
 Composing adapter (openclosepb `Model.PullPositions`): `compose <updatesOnly 0|1> <emptyAtSubscribe 0|1> <mask n|s|p>
 <changes>` with changes `-` or comma separated `<id>=<val|nil>/<s|S|u>` (seed value, LAST seed value, update): the
 messages sent, `;` separated, each `<states>#<preset>` (mask `s`: states only, `p`: preset only; the preset `P` stands
@@ -282,6 +285,19 @@ def handle (toks : List String) : String :=
         s!"S{s}={st}:{showView view}:" ++ ";".intercalate (evs.map (showEv id)))
       s!"store={showView c.store}|" ++ "|".intercalate ss ++
         s!"|pubs={c.pubs.length}|lock={if c.lock.isSome then 1 else 0}|ord={if ordered c₀ acts then 1 else 0}"
+    | _, _, _, _, _ => "!bad-op"
+  | ["pullid", pid, init, progs, subs, sched] =>
+    -- `Collection.PullID pid` by subscriber 0: the values its stream delivers and whether a REMOVE has ended it
+    match parseNat? pid, parseInit? init, (progs.splitOn "|").mapM parseProg?, parseSubs? subs, parseSched? sched with
+    | some pid, some init, some progs, some subs, some sched =>
+      let s₀ : Nat → Option V := fun i => (init.find? (fun kv => kv.1 == i)).map (·.2)
+      let c₀ : Cfg V := initCfg s₀ (fun t => progs.getD t []) (fun s => subs.getD s ⟨false, false, id, none⟩)
+      let (c, _) := expand subs.length c₀ sched []
+      let sb := c.subs 0
+      -- an updates-only subscriber is sent no seed (`base` is then a ghost: what it must already know)
+      let nseed := if sb.updatesOnly then (seedView sb.incl sb.mask sb.base pid).toList.length else 0
+      let vals := if sb.registered then ";".intercalate (((sb.pullID pid).drop nseed).map showVal) else ""
+      s!"store={showView c.store}|vals={vals}|ended={if sb.pullIDEnded pid then 1 else 0}"
     | _, _, _, _, _ => "!bad-op"
   | _ => "!bad-op"
 
